@@ -152,6 +152,7 @@ type store struct {
 }
 
 func (s *store) reload() {
+	verifEvent("exec.reload", "", 0, 0)
 	wdl.Printf("store: reloading store config from '%s'", s.configfile)
 	newdir, err := lib.NewDirFromConfig(s.configfile)
 	if err != nil {
@@ -187,6 +188,7 @@ func (s *store) check() (result checkResult) {
 }
 
 func (s *store) add(username, password string, isAdmin bool) (result addResult) {
+	verifEvent("exec.add", username, 0, 0)
 	if ok, err := s.policy.Check(password, username); !ok || err != nil {
 		if err != nil {
 			result.err = err
@@ -203,12 +205,14 @@ func (s *store) add(username, password string, isAdmin bool) (result addResult) 
 }
 
 func (s *store) remove(username string) (result removeResult) {
+	verifEvent("exec.remove", username, 0, 0)
 	s.dir.RemoveUser(username)
 	s.hooks.Notify <- true
 	return
 }
 
 func (s *store) update(username, password string) (result updateResult) {
+	verifEvent("exec.update", username, 0, 0)
 	if ok, err := s.policy.Check(password, username); !ok || err != nil {
 		if err != nil {
 			result.err = err
@@ -225,6 +229,7 @@ func (s *store) update(username, password string) (result updateResult) {
 }
 
 func (s *store) setAdmin(username string, isAdmin bool) (result setAdminResult) {
+	verifEvent("exec.setadmin", username, 0, 0)
 	result.err = s.dir.SetAdmin(username, isAdmin)
 	if result.err == nil {
 		s.hooks.Notify <- true
@@ -243,8 +248,10 @@ func (s *store) listFull() (result listFullResult) {
 }
 
 func (s *store) authenticate(username, password string) (result authenticateResult) {
+	verifEvent("exec.authenticate", username, 0, 0)
 	result.ok, result.isAdmin, result.upgradeable, result.lastChanged, result.err = s.dir.Authenticate(username, password)
 	if result.ok && result.upgradeable && s.upgradeChan != nil {
+		verifEvent("upgrade.enqueue", username, len(s.upgradeChan), cap(s.upgradeChan))
 		s.upgradeChan <- updateRequest{username: username, password: password}
 	}
 	return
@@ -271,6 +278,7 @@ func (s *store) dispatchRequests() {
 				req.response <- s.update(req.username, req.password)
 			} else {
 				wdl.Printf("upgrade(local): upgrading '%s'", req.username)
+				verifEvent("exec.upgrade", req.username, 0, 0)
 				if resp := s.update(req.username, req.password); resp.err != nil {
 					wl.Printf("upgrade(local): failed for '%s': %v", req.username, resp.err)
 				} else {
@@ -315,12 +323,15 @@ func remoteHTTPUpgrader(upgradeChan <-chan updateRequest, remote string) {
 	for update := range upgradeChan {
 		select {
 		case sem <- true:
+			verifEvent("remote.start", update.username, len(sem), cap(sem))
 			wdl.Printf("upgrade(remote): upgrading '%s' via %s", update.username, remote)
 			go func(update updateRequest, remote string) {
 				defer func() { <-sem }()
+				defer verifEvent("remote.done", update.username, 0, 0)
 				remoteHTTPUpgrade(update, remote)
 			}(update, remote)
 		default:
+			verifEvent("remote.drop", update.username, len(sem), cap(sem))
 			wdl.Printf("upgrade(remote): ignoring upgrade request for '%s' due to rate-limiting", update.username)
 		}
 	}
